@@ -32,6 +32,9 @@ func c06Check(c stage.Cfg) func(o *obs.Obs) string {
 		if p := o.AnyPanic(); p != "" {
 			return tag + "/env-panic|" + p
 		}
+		if o.Horizon {
+			return fmt.Sprintf("%s/cancel-livelock|the consumer keeps receiving after the cancel and the stage keeps delivering (%d values so far): on this path the stage never consults the context, so it does not terminate on cancel", tag, o.N("got"))
+		}
 		cancelled := o.Has("cancel")
 		// (2) prefix of the uncancelled result
 		switch c.Stage {
@@ -121,7 +124,9 @@ func c06Scenarios(tier string) []e1lib.Scenario {
 		if c.K >= 3 && (c.Stage == "partition" || c.Stage == "join" || c.Stage == "throttle") {
 			b = 3
 		}
-		out = append(out, e1lib.Scenario{Name: stageName(c), Root: func() { stage.Scenario(c) }, Check: c06Check(c), Bound: b, Sample: c})
+		// generators with a consumer that cancels and then keeps receiving are liveness scenarios (see e1lib.Scenario.Live)
+		live := (c.Stage == "emit" || c.Stage == "unfold") && c.Stop == -1 && c.CancelAfter > 0
+		out = append(out, e1lib.Scenario{Name: stageName(c), Root: func() { stage.Scenario(c) }, Check: c06Check(c), Bound: b, Sample: c, Live: live})
 	}
 	stops := func(n int) []int {
 		s := []int{-1, 0}
@@ -241,6 +246,10 @@ func c06Scenarios(tier string) []e1lib.Scenario {
 						}
 						if mode == "lift" && m != 0 {
 							c.Stop, c.CancelAfter = -1, 0
+							add(c)
+						}
+						if !cancel && m == 0 {
+							c.Stop, c.CancelAfter = -1, 1
 							add(c)
 						}
 					}
